@@ -216,7 +216,7 @@ def rand_clt(rs, scope, root_rows_equal=True):
     return BinaryCLT([int(s) for s in scope], root=int(scope[root]), tree=tree, params=np.log(params).tolist())
 
 
-def rand_spn(rs, scope, depth, kinds=('bern',), share=0.3, pool=None, clt=False, var_kind=None, same_categories=None):
+def rand_spn(rs, scope, depth, kinds=('bern',), share=0.3, pool=None, clt=False, var_kind=None, same_categories=None, no_repeat=False):
     """random valid circuit over `scope`; `var_kind` fixes one leaf family per variable so that
     every variable has one domain"""
     if pool is None:
@@ -241,7 +241,12 @@ def rand_spn(rs, scope, depth, kinds=('bern',), share=0.3, pool=None, clt=False,
         node = Product(children=[leaf(v) for v in scope]) if len(scope) > 1 else leaf(scope[0])
     elif len(scope) == 1 or rs.rand() < 0.5:
         k = rs.randint(1, 6)
-        ch = [rand_spn(rs, [int(v) for v in rs.permutation(scope)], depth - 1, kinds, share, pool, clt, var_kind, same_categories) for _ in range(k)]
+        ch = []
+        for _ in range(k):
+            c = rand_spn(rs, [int(v) for v in rs.permutation(scope)], depth - 1, kinds, share, pool, clt, var_kind, same_categories, no_repeat)
+            if no_repeat and any(c is d for d in ch):
+                c = rand_spn(rs, [int(v) for v in rs.permutation(scope)], depth - 1, kinds, 0.0, pool, clt, var_kind, same_categories, no_repeat)
+            ch.append(c)
         w = rs.dirichlet(np.ones(k))
         node = Sum(scope=[int(v) for v in scope], children=ch, weights=w.astype(np.float32))
     else:
@@ -249,7 +254,7 @@ def rand_spn(rs, scope, depth, kinds=('bern',), share=0.3, pool=None, clt=False,
         perm = [int(v) for v in rs.permutation(scope)]
         cuts = sorted(rs.choice(np.arange(1, len(scope)), k - 1, replace=False).tolist())
         parts = [perm[a:b] for a, b in zip([0] + cuts, cuts + [len(scope)])]
-        ch = [rand_spn(rs, p, depth - 1, kinds, share, pool, clt, var_kind, same_categories) for p in parts]
+        ch = [rand_spn(rs, p, depth - 1, kinds, share, pool, clt, var_kind, same_categories, no_repeat) for p in parts]
         node = Product(scope=[int(v) for v in rs.permutation(scope)], children=ch)
     pool.setdefault(key, []).append(node)
     return node
